@@ -126,7 +126,12 @@ Truth(c, a) ==
     [] c.k = "distinct" -> \A p, q \in 1..Len(c.xs) : p < q => Eval(c.xs[p], a).v # Eval(c.xs[q], a).v
     [] c.k = "sum"  -> LET y == Eval(c.r, a) IN y.ok /\ RelHolds(c.op, SumSeq(c.xs, a), y.v)
 
-(* a variable in Boolean position is a 0/1 variable: other values are no solutions *)
+(* a variable in Boolean position is a 0/1 variable: other values are no solutions.           *)
+(* ("Let P and Q denote reifiable constraints or Boolean variables": an integer other than    *)
+(* 0 and 1 is neither.  When a variable in such a position is already bound to such an        *)
+(* integer at the time the constraint is posted, library(clpz) raises                         *)
+(* domain_error(clpz_reifiable_expression, _) instead of failing; the driver accepts exactly  *)
+(* this error in place of failure, i.e. only where BoolOK is false / no solution exists.)     *)
 BoolOK(c, a) ==
   CASE c.k = "bvar" -> a[c.i] \in {0, 1}
     [] c.k = "not"  -> BoolOK(c.l, a)
